@@ -84,7 +84,7 @@ Proof. exact perplexity_exit_thm. Qed.
 Print Assumptions perplexity_exit.
 
 Example perplexity_exit_nonvacuous :
-  exists ev, perp_search (fun _ => 1%Q) (fun _ => 0%Q) 0 (1 # 100000) (Some 0%nat) [0; 1; 4]%Q 2 = (true, Some ev).
+  exists ev, perp_search (fun _ => 1%Q) (fun _ => 0%Q) 0 (1 # 100000) (Some 0%nat) [0; 0; 0]%Q 2 = (true, Some ev).
 Proof. exact Tsne_Proof_Perp.perplexity_exit_nonvacuous. Qed.
 
 (* the loop always leaves an evaluated row behind (it is normalised and stored even when
